@@ -112,7 +112,35 @@ KEEP_ASYNC = {("mempool/src/quorum_waiter.rs", "waiter")}
 # acknowledgement that is already there, else stop waiting" (vnow_or_none): exact for schedules in which every
 # acknowledgement that will ever arrive has arrived before the step, which is what the C12 harnesses use.
 AWAIT_OR_NONE = {("mempool/src/quorum_waiter.rs", "run"): ["wait_for_quorum.next().await"]}
+# async fns of the shape `PREFIX; <future>.await<postfix>` whose final await is a genuine wait (the store's reply): lowered to a
+# plain fn that runs PREFIX at call time (awaits inside it polled once) and returns `::tokio::TailFut(<future>, |v| v<postfix>)`,
+# an ordinary struct future instead of a coroutine. Difference to the async fn: PREFIX runs when the future is created, not at
+# its first poll; the harnesses poll every such future right after creating it.
+TAIL_AWAIT = {("store/src/lib.rs", "read"), ("store/src/lib.rs", "notify_read")}
 ASYNC_FN_RE = re.compile(r"\basync fn\s+(\w+)")
+
+
+def _split_tail(body):
+    """(prefix, tail expression) of a block body: the tail starts after the last `;` or `}` at brace depth 0 that is followed by code"""
+    d, cut, i, n = 0, 0, 0, len(body)
+    while i < n:
+        c = body[i]
+        if c == '"':
+            i += 1
+            while body[i] != '"':
+                i += 2 if body[i] == "\\" else 1
+        elif c == "/" and body[i + 1] == "/":
+            i = body.index("\n", i)
+        elif c in "{(":
+            d += 1
+        elif c in "})":
+            d -= 1
+            if d == 0 and c == "}" and body[i + 1:].strip():
+                cut = i + 1
+        elif c == ";" and d == 0 and body[i + 1:].strip():
+            cut = i + 1
+        i += 1
+    return body[:cut], body[cut:]
 
 
 def _match_brace(s, i):
@@ -166,6 +194,20 @@ def deasync(path, rel=""):
             out.append(s[pos:j + 1])
             pos = j + 1
             continue
+        if (rel, m.group(1)) in TAIL_AWAIT:
+            pre, tail = _split_tail(body)
+            tm = re.match(r"^\s*(\w+)\s*\.await(.*)$", tail, re.S)
+            am = re.search(r"\)\s*->\s*(.+)$", sig.rstrip(), re.S)
+            if not tm or not am:
+                raise SystemExit("deasync: %s::%s does not end in `<future>.await<postfix>`" % (rel, m.group(1)))
+            sig2 = sig.replace("async fn", "fn", 1).rstrip()
+            sig2 = sig2[:re.search(r"\)\s*->\s*(.+)$", sig2, re.S).start()] + ") -> impl ::std::future::Future<Output = %s> " % am.group(1).strip()
+            out.append(s[pos:m.start()])
+            out.append("%s{ #[allow(unused_imports)] use ::tokio::{VNow as _, VNowOrNone as _}; %s ::tokio::TailFut::new(%s, move |__v| __v%s) }"
+                       % (sig2, pre.replace(".await", ".vnow()"), tm.group(1), tm.group(2).rstrip()))
+            lowered.append(m.group(1) + " (tail await kept)")
+            pos = j + 1
+            continue
         if (rel, m.group(1)) in LOWER_LOOPS:
             body = body.replace("tokio::select!", "tokio::select_now!", 1)  # the outer select only
             for pat in AWAIT_OR_NONE.get((rel, m.group(1)), []):
@@ -190,6 +232,43 @@ def deasync(path, rel=""):
         pos = j + 1
     open(path, "w").write("".join(out).replace("#[async_recursion]", ""))
     return lowered, kept
+
+
+def lower_spawned_loop(path):
+    """`fn new(..) -> StoreResult<Self> { ..; tokio::spawn(async move { BODY }); Ok(Self {..}) }` gets a sibling
+           pub fn verif_new(..) -> StoreResult<(Self, impl FnMut())> { ..; let __task = move || { BODY' }; Ok((Self {..}, __task)) }
+    generated from the current text of `new` on every run: BODY' is BODY with `<rx>.recv().await` replaced by
+    `<rx>.recv().vnow_or_none()` (take the next queued command if there is one, else return: a real executor would suspend the task
+    there) and any other `.await` by `.vnow()`. The harness owns the closure as a plain local and calls it wherever the real
+    scheduler could run the store task. Statements, order and every call of the real command loop are unchanged."""
+    s = open(path).read()
+    m = re.search(r"pub fn new\(([^)]*)\)\s*->\s*StoreResult<Self>\s*\{", s)
+    if not m:
+        raise SystemExit("lower_spawned_loop: `pub fn new(..) -> StoreResult<Self>` not found")
+    i = m.end() - 1
+    j = _match_brace(s, i)
+    body = s[i + 1:j]
+    sm = re.search(r"tokio::spawn\(async move \{", body)
+    if not sm:
+        raise SystemExit("lower_spawned_loop: no `tokio::spawn(async move {` in Store::new")
+    bi = sm.end() - 1
+    bj = _match_brace(body, bi)
+    tail = body[bj + 1:]
+    tm = re.match(r"\s*\)\s*;", tail)
+    if not tm:
+        raise SystemExit("lower_spawned_loop: unexpected text after the spawned block")
+    task = body[bi + 1:bj].replace(".recv().await", ".recv().vnow_or_none()").replace(".await", ".vnow()")
+    rest = tail[tm.end():]
+    om = re.search(r"Ok\((Self\s*\{[^}]*\})\)\s*$", rest)
+    if not om:
+        raise SystemExit("lower_spawned_loop: Store::new does not end in `Ok(Self { .. })`")
+    rest2 = rest[:om.start()] + "Ok((%s, __task))\n" % om.group(1)
+    new_fn = ("\n    /// generated by kani/overlay.py from the text of `new` (see lower_spawned_loop)\n"
+              "    pub fn verif_new(%s) -> StoreResult<(Self, impl FnMut())> {%s let __task = move || { #[allow(unused_imports)] use ::tokio::{VNow as _, VNowOrNone as _}; %s };%s    }\n"
+              % (m.group(1), body[:sm.start()], task, rest2))
+    s = s[:j + 1] + new_fn + s[j + 1:]
+    open(path, "w").write(s)
+    return ["Store::new -> verif_new (spawned command loop as a closure)"]
 
 
 def main():
@@ -220,6 +299,14 @@ def main():
     if a.profile.endswith("8"):
         kp = os.path.join(out, "kcoll", "src", "lib.rs")
         ks = open(kp).read().replace("pub const CAP: usize = 4;", "pub const CAP: usize = 8;")
+        open(kp, "w").write(ks)
+    if a.profile == "S":
+        # the store keeps a VecDeque of waiters per key: every drop of such a container walks all its slots, so the capacities
+        # are cut to what the C16 schedules need (2 keys with waiters, 3 waiters per key; overflow is a hard error)
+        kp = os.path.join(out, "kcoll", "src", "lib.rs")
+        ks = open(kp).read()
+        assert "pub const CAP: usize = 4;" in ks and "pub const DQ_CAP: usize = 8;" in ks
+        ks = ks.replace("pub const CAP: usize = 4;", "pub const CAP: usize = 2;").replace("pub const DQ_CAP: usize = 8;", "pub const DQ_CAP: usize = 3;")
         open(kp, "w").write(ks)
     for p in PATCHES[a.profile]:
         shutil.copytree(os.path.join(SHIMS, p), os.path.join(out, "_shim_" + p))
@@ -269,6 +356,12 @@ def main():
             if os.path.exists(p):
                 lowered, kept = deasync(p, rel)
                 report["deasync"][rel] = {"lowered": lowered, "kept_async": kept}
+
+    if a.profile == "S":
+        sp = os.path.join(out, "store/src/lib.rs")
+        low = lower_spawned_loop(sp)
+        lowered, kept = deasync(sp, "store/src/lib.rs")
+        report["deasync"]["store/src/lib.rs"] = {"lowered": low + lowered, "kept_async": kept}
 
     # 4. attach harness modules (a private copy inside the overlay, so that Kani's in-place
     #    concrete playback edits the scratch copy and never /verif)
